@@ -165,8 +165,39 @@ class Counters(Suite):
         return f"({ranking_term(out['c'])}, {ranking_term(out['r'])}, {zlist(out['v'])})"
 
 
+class Big(Suite):
+    """one strict ranking of tens of thousands of elements against the candidate that ties them all: more than 2^31 pairs, judged against
+    the closed form proved in BigScore.v (the model itself cannot be evaluated at that size)"""
+    name = "big"
+    imports = ["Scheme", "Judge.JC01"]
+    judge = "judge_big_tied"
+    ctype = "scheme * Z * option Z"
+    breadcrumbs = True
+
+    def gen(self, tier, rng):
+        cases = [{"n": 66000, "s": gen.UNIFYING_HALF}, {"n": 300, "s": gen.GENERIC}]
+        if tier == "thorough":
+            cases += [{"n": 70001, "s": gen.GENERIC}, {"n": 100000, "s": gen.UNIFYING}]
+        return cases
+
+    def run(self, case):
+        n = case["n"]
+        ds = Dataset([Ranking([{i} for i in range(n)])])
+        v = KemenyComputingFactory(ScoringScheme(case["s"])).get_kemeny_score(Ranking([set(range(n))]), ds)
+        return {"score": to_units(v)}
+
+    def term(self, case, out):
+        return f"({scheme_term(case['s'])}, {z(case['n'])}, {copt(out['score'], z)})"
+
+    def nontrivial(self, case, out):
+        return True
+
+    def stats(self, case, out, acc):
+        acc[f"n={case['n']}"] = 1
+
+
 if __name__ == "__main__":
-    main("C01", [Kemeny(), Counters()], gen_targets=["kemenymerge"],
+    main("C01", [Kemeny(), Counters(), Big()], gen_targets=["kemenymerge"],
          level_note="see MANIFEST level_note",
          rule="exhaustive block: datasets of two partial rankings over {0,1,2} x candidates over 3 and 4 elements (quick: sampled) under the "
               "generic scheme (all 12 penalties distinct where allowed); random datasets <= 8 x 6 with candidates over the universe (60%), "
